@@ -30,7 +30,7 @@ type c42Case struct {
 	Kind   string   `json:"kind,omitempty"`
 }
 
-const maxQueries = 48
+const maxQueries = 36
 
 type lcg struct{ x uint64 }
 
@@ -67,11 +67,6 @@ func (r *c42run) dump() string {
 		fmt.Fprintf(&sb, "--- %s ---\n%s", f.name, f.text)
 	}
 	return sb.String()
-}
-
-func isPattern(s d2ast.String) bool {
-	us, ok := s.(*d2ast.UnquotedString)
-	return ok && us.Pattern != nil
 }
 
 // sliceOf cuts a returned range out of the right file using its line/column positions and
@@ -210,7 +205,8 @@ func (r *c42run) objectQuery(path string, q objQuery) {
 			forms[m.form] = true
 			// (objects named like a board keyword are dropped from the copy a scenario/step starts
 			// from, see ksig: inherited keys through them may be absent)
-			if r.inheritedBefore(cl, m.file, m.board, m.start) && ksig("", q.key) == "" {
+			// (with imports the board a step starts from may be an imported one: core class only)
+			if r.c.Class == "core" && r.inheritedBefore(cl, m.file, m.board, m.start) && ksig("", q.key) == "" {
 				present = true
 			}
 		}
@@ -407,7 +403,7 @@ func (r *c42run) edgeQuery(path string, q edgeQuery) {
 	cl := rec.closure(q.board)
 	present := false
 	for _, m := range rec.edges {
-		if m.id == em.id && m.idx == em.idx && (m.board == q.board || (inList(cl, m.board) && r.inheritedBefore(cl, m.file, m.board, m.start) && ksig("", em.cont, em.src, em.dst) == "")) {
+		if m.id == em.id && m.idx == em.idx && (m.board == q.board || (r.c.Class == "core" && inList(cl, m.board) && r.inheritedBefore(cl, m.file, m.board, m.start) && ksig("", em.cont, em.src, em.dst) == "")) {
 			present = true
 		}
 	}
@@ -565,12 +561,6 @@ func (r *c42run) refOracle(path string) {
 	rec := r.rec
 	var oq []objQuery
 	var eq []edgeQuery
-	fileHasLinks := false
-	for _, l := range rec.links {
-		if l.file == path {
-			fileHasLinks = true
-		}
-	}
 	for _, b := range rec.boards {
 		if b.file != path {
 			continue
@@ -622,7 +612,6 @@ func (r *c42run) refOracle(path string) {
 			}
 		}
 	}
-	_ = fileHasLinks
 	// deterministic selection when there are too many
 	pick := func(n int) []int {
 		idx := make([]int, n)
@@ -959,5 +948,7 @@ func firstLine(s string) string {
 }
 
 func TestC42(t *testing.T) {
+	// every position is parsed again by the code under test: garbage-heavy, tiny live heap
+	debug.SetGCPercent(800)
 	hx.Run(t, hx.Spec[c42Case]{Prop: "C42", Core: coreC42, Gen: genC42, Check: checkC42, Timeout: 60 * time.Second})
 }
